@@ -129,6 +129,23 @@ func SoundApply(ch *Chain, b types.Block, bs consensus.V1BlockSupplement, legacy
 			return true, fmt.Errorf("accepted block changes the number of siafunds from %s to %s", sfB, sfA)
 		}
 	}
+	// no resolution path of a contract pays more than the contract holds: from the ephemeral-output fork height on every
+	// v2 contract entering or staying in the set keeps its missed host value within the host's valid output (expiry pays
+	// renter output + missed host value out of renter output + host output)
+	if next.Index.Height >= ch.Net.HardforkV2.EphemeralOutputHeight {
+		for _, d := range au.V2FileContractElementDiffs() {
+			if d.Resolution != nil || !(d.Created || d.Revision != nil) {
+				continue
+			}
+			fc := d.V2FileContractElement.V2FileContract
+			if d.Revision != nil {
+				fc = *d.Revision
+			}
+			if fc.MissedHostValue.Cmp(fc.HostOutput.Value) > 0 {
+				return true, fmt.Errorf("accepted block leaves v2 contract %v with missed host value %v above its host output %v: its expiry would pay out more than the contract holds", d.V2FileContractElement.ID, fc.MissedHostValue, fc.HostOutput.Value)
+			}
+		}
+	}
 	// revert must restore the store
 	ru := consensus.RevertBlock(tip, b, bs)
 	if err := after.Revert(ru, tip.Elements.NumLeaves); err != nil {
